@@ -45,6 +45,11 @@ def sq(s):
 INTS = [0, 1, -1, 7, 42, 2**31, -2**31, 2**53, 2**53 + 1, 2**63 - 1, 2**63, 2**64 - 1, -2**63, -2**63 + 1, 10**15]
 DECS = ['1.5', '-2.25', '0.1', '100.0', '1E2', '-1E-2', '1.25E3', '123456.789', '0.000001', '9.99E20', '1E21', '4.9E-324', '1.7976931348623157E308', '-0.0', '0.5E0']
 
+# integer-looking spellings whose JSON reading is not the integer one (-0 is the float -0.0), exponent forms
+ZEROS = ['-0', '-0E0', '0.0', '0E0', '-0.0E1', '0E5']
+# spellings the grammar accepts as number literals but JSON does not: the template is rejected (InvalidParam)
+NOT_JSON = ['007', '-01', '00', '1.', '-00', '01.5', '[1, 007]', '{"k": -01}']
+
 def lit(rng, depth, top=True):
     """(source text, python value)"""
     k = rng.random()
@@ -69,7 +74,7 @@ def lit(rng, depth, top=True):
         n = rng.choice(INTS)
         return str(n), n
     if k < 0.82:
-        t = rng.choice(DECS)
+        t = rng.choice(DECS + ZEROS)
         return t, F(float(t))
     return rng.choice([('true', True), ('false', False), ('null', None)])
 
@@ -143,10 +148,16 @@ def gen_cases(rng, tier, scale):
     for i, (src, v) in enumerate([("['a']", ['a']), ("[1,'b c']", [1, 'b c']), ("{'k': 1}", {'k': 1}), ('{"k": \'v\'}', {'k': 'v'})]):
         cases.append(rcase(f'q{i}', '{{dump ' + src + '}}', DATA, pre=['probes', 'esc 1'], entry=4, kind='dump', form='expr',
                            dump='dump(' + pj_lit(v) + ';;bti;-)', log=[], hlog=[], tags=['nested-single-quote']))
+    for i, src in enumerate(NOT_JSON):
+        for j, tpl in enumerate(['{{dump %s}}', '{{dump 1 k=%s}}', '{{#dump %s}}b{{/dump}}', '{{id (dump %s)}}']):
+            cases.append(rcase(f'nj{i}_{j}', tpl % src, DATA, pre=['probes', 'esc 1'], entry=4, kind='notjson', form='expr', tags=['not-json-number']))
     return cases
 
 def oracle(c, io, mo):
     r = res_of(io)
+    if c['kind'] == 'notjson':
+        ok = r['kind'] == 'err' and r['reason'] == 'TemplateError' and str(r.get('payload', '')).startswith('invalid_param')
+        return None if ok else f'a number literal that is not JSON must be rejected (InvalidParam), got {r.get("out", r.get("reason"))!r} {r.get("payload", "")}'
     if r['kind'] != 'ok':
         return f'expected {c["dump"]!r}, got {r.get("reason", r["kind"])} {r.get("payload", "")}'
     exp_out = c['dump']
